@@ -480,7 +480,11 @@ def compare(prog, ref, obs, what=("verdict", "steps", "calls", "status", "hooks"
             else:
                 acc = accept(children_of(prog, path, obs["status"]), dry=ref.dry)
                 clause = "container-rollup"
-            if path in ref.hook_error_elems:
+            if path in ref.hook_error_elems and path in ref.cleanup_error_elems:
+                # a hook of the element AND one of its cleanups raised: which of the two error marks wins is not stated
+                acc = set(FAILING) | {"hook_error"}
+                clause = "hook+cleanup-error-mark"
+            elif path in ref.hook_error_elems:
                 acc = {"hook_error"}
                 clause = "hook-error-mark"
             elif path in ref.cleanup_error_elems:
